@@ -253,6 +253,13 @@ def chopped_lattice(draw, mode: str, graded: bool = False, **kw):
         base = fam_count[fi]
         if base is None:
             return None
+        # sometimes the first demand is repeated on further members, so that the conflicting block can be surrounded
+        # by blocks that agree among themselves
+        others = [m for m in fams[fi] if m not in ((chops[fi]["cell"], chops[fi]["gdir"]), (c, d))]
+        if others and draw(st.booleans()):
+            for m in draw(st.lists(st.sampled_from(others), min_size=1, max_size=min(3, len(others)), unique=True)):
+                chops.append({"cell": m[0], "gdir": m[1], "args": "same-as-first"})
+        same_as_first = fi
         if not isinstance(chops[fi]["args"], list) and draw(st.integers(0, 2)) == 0:
             # large counts that differ by one cell only
             base = draw(st.integers(60, 1200))
@@ -261,7 +268,16 @@ def chopped_lattice(draw, mode: str, graded: bool = False, **kw):
         if other < 1:
             other = base + 1
         chops.append({"cell": c, "gdir": d, "args": {"count": other}})
+        for ch in chops:
+            if ch["args"] == "same-as-first":
+                ch["args"] = chops[same_as_first]["args"]
         case["conflict"] = {"family": fi, "first": [chops[fi]["cell"], chops[fi]["gdir"]], "second": [c, d]}
+        if draw(st.booleans()):
+            # the dissenting block is added last: everything around it is already graded when its turn comes
+            pairs = list(zip(case["cells"], case["orient"]))
+            pairs = [p for p in pairs if p[0] != c] + [p for p in pairs if p[0] == c]
+            case["cells"] = [p[0] for p in pairs]
+            case["orient"] = [p[1] for p in pairs]
     if mode == "under":
         drop = draw(st.sampled_from(range(len(fams))))
         chops = [ch for i, ch in enumerate(chops) if i != drop]
